@@ -259,6 +259,143 @@ def _siblings(repo, rep):
                       where="%s:%d" % (m.relpath, lineno),
                       detail="has %s" % kw.get(k))
     rep.require_min("R10.2", 21, "seven translate fragments x three settings")
+    rewriter_proof(repo, rep)
+
+
+def rewriter_proof(repo, rep, rule="R10.2"):
+    """Whatever an expression engine returns is handed to the name rewriter
+    (ExpressionTransform.__call__ visits every statement), which turns a
+    bare ``target_language`` into a lookup of the template variable of that
+    name -- the render() keyword, not the setting of the nearest
+    i18n:target.  Only the statement emitters of class Compiler bypass the
+    rewriter.  So a translate fragment used anywhere else must bind the
+    name to a node the rewriter leaves alone."""
+    m = repo.modules["chameleon.compiler"]
+    et = repo.func(COMP + "ExpressionTransform.__call__")
+    visits_all = any(
+        isinstance(n, (ast.ListComp, ast.For)) and "self.visitor(" in src(n)
+        for n in ast.walk(et.node))
+    rep.check(visits_all, rule, et.qualname, "every statement an expression "
+              "engine returns passes the name rewriter",
+              construct="rewriter-covers-engines", where=L.where(et))
+    exempt = set()
+    for n in m.tree.body:
+        if isinstance(n, ast.Assign) and isinstance(n.targets[0], ast.Name) \
+                and n.targets[0].id == "COMPILER_INTERNALS_OR_DISALLOWED":
+            exempt |= {e.value for e in ast.walk(n.value)
+                       if isinstance(e, ast.Constant)}
+    for fn_ in repo.funcs.values():
+        for n in ast.walk(fn_.node):
+            if isinstance(n, ast.Assign) and src(n.targets[0]) == "internals":
+                if "self.defaults" in src(n.value):
+                    cc = repo.cls(COMP + "Compiler")
+                    d = cc.attrs.get("defaults")
+                    if isinstance(d, ast.Dict):
+                        exempt |= {k.value for k in d.keys
+                                   if isinstance(k, ast.Constant)}
+                exempt |= {e.value for e in ast.walk(n.value)
+                           if isinstance(e, ast.Constant)
+                           and isinstance(e.value, str)}
+
+    def bare_settings(text):
+        out = set()
+        try:
+            tree = ast.parse(textwrap.dedent(text))
+        except SyntaxError:
+            try:
+                tree = ast.parse(textwrap.dedent(text), mode="eval")
+            except SyntaxError:
+                return out
+        for c in ast.walk(tree):
+            if isinstance(c, ast.Call) and src(c.func) == "translate":
+                for k in c.keywords:
+                    if k.arg in I18N_KW and isinstance(k.value, ast.Name) \
+                            and not k.value.id.startswith("__") \
+                            and k.value.id not in exempt:
+                        out.add(k.value.id)
+        return out
+
+    def nested_def(text):
+        try:
+            tree = ast.parse(textwrap.dedent(text))
+        except SyntaxError:
+            return False
+        return any(isinstance(x, ast.FunctionDef) for x in tree.body)
+
+    def source_of(call):
+        srcs = [call.args[0]] if call.args else []
+        srcs += [k.value for k in call.keywords if k.arg == "source"]
+        for s_ in srcs:
+            try:
+                t_ = repo.fold(s_, m)
+            except NotConst:
+                continue
+            if isinstance(t_, str):
+                return t_
+        return None
+    # module-level fragment functions
+    frag_funcs = {}
+    for n in m.tree.body:
+        if isinstance(n, ast.Assign) and isinstance(n.value, ast.Call) and \
+                src(n.value.func) == "template" and any(
+                    k.arg == "is_func" for k in n.value.keywords):
+            t_ = source_of(n.value)
+            if t_ and bare_settings(t_):
+                frag_funcs[n.targets[0].id] = (bare_settings(t_),
+                                               nested_def(t_))
+    safe_consts = {n.targets[0].id for n in m.tree.body
+                   if isinstance(n, ast.Assign)
+                   and isinstance(n.targets[0], ast.Name)
+                   and isinstance(n.value, ast.Call)
+                   and src(n.value.func) == "Builtin"}
+
+    def proof(call, names):
+        kws = {k.arg: k.value for k in call.keywords}
+        miss = []
+        for nm in names:
+            v = kws.get(nm)
+            if v is None or not (
+                    (isinstance(v, ast.Call) and src(v.func) == "Builtin")
+                    or (isinstance(v, ast.Name) and v.id in safe_consts)):
+                miss.append(nm)
+        return miss
+    n_sites = 0
+    for q, fn in sorted(repo.funcs.items()):
+        if fn.module is not m:
+            continue
+        in_compiler = q.startswith(CC)
+        for c in ast.walk(fn.node):
+            if not isinstance(c, ast.Call):
+                continue
+            names = None
+            if isinstance(c.func, ast.Name) and c.func.id in frag_funcs:
+                names, nested = frag_funcs[c.func.id]
+                if nested:
+                    # defines a helper function; its body is not rewritten
+                    # when emitted by the Compiler
+                    if in_compiler:
+                        continue
+            elif isinstance(c.func, ast.Name) and c.func.id == "template":
+                t_ = source_of(c)
+                names = bare_settings(t_) if t_ else None
+            if not names:
+                continue
+            if in_compiler:
+                continue
+            n_sites += 1
+            miss = proof(c, names)
+            rep.check(not miss, rule, q, "a translate(...) fragment emitted "
+                      "as expression code binds %s to a node the name "
+                      "rewriter leaves alone (else the translation target "
+                      "is the template variable, i.e. the render() keyword, "
+                      "and i18n:target is ignored)" % ", ".join(
+                          sorted(names)),
+                      construct="rewriter-proof:%s" % fn.name,
+                      where=L.where(fn, c.lineno),
+                      detail="unprotected: %s" % miss if miss else "")
+    if n_sites < 3:
+        raise AnalysisError("only %d translate fragments in expression "
+                            "code found" % n_sites)
 
 
 def _enclosing(m, lineno):
